@@ -14,6 +14,15 @@ open Mdsort Mdsort.Model
 
 /-! ## sizes -/
 
+instance (a b : Lim) : Decidable (a ≤ b) :=
+  match a, b with
+  | .fin x, .fin y => inferInstanceAs (Decidable (x ≤ y))
+  | .fin _, .inf => isTrue trivial
+  | .inf, .fin _ => isFalse fun h => h
+  | .inf, .inf => isTrue trivial
+
+instance (a b : Limits) : Decidable (a ≤ b) := inferInstanceAs (Decidable (_ ∧ _ ∧ _))
+
 theorem Lim.le_refl (l : Lim) : l ≤ l := by
   cases l with
   | fin n => exact Nat.le_refl n
